@@ -58,7 +58,12 @@ pub fn generate(g: &mut Sm64, c: usize, n: usize, p: usize, allow_degenerate: bo
         };
         families.push(f);
         phis.push(if g.chance(0.5) { g.uniform(-0.9, 0.99) } else { g.uniform(-0.5, 0.9) });
-        let s = g.log_uniform(1e-3, 1e3);
+        // mostly moderate scales, sometimes very small or very large absolute ones
+        let s = match g.below(8) {
+            0 => g.log_uniform(1e-8, 1e-3),
+            1 => g.log_uniform(1e3, 1e6),
+            _ => g.log_uniform(1e-3, 1e3),
+        };
         scale.push(s);
         loc.push(if g.chance(0.3) { 0.0 } else { g.uniform(-1.0, 1.0) * max_loc_over_scale * s });
     }
